@@ -25,6 +25,8 @@ const (
 	kFor
 	kWhile
 	kLoop
+	kBreakable
+	kContinuable
 	nKinds
 )
 
@@ -81,7 +83,7 @@ func (b *builder) genKind(kind, depth int) *node {
 	case kBind, kBindRecv:
 		n.val = rt.NondetInt(12)
 		n.kids = []*node{b.gen(depth - 1)}
-	case kDelay, kWhile, kLoop:
+	case kDelay, kWhile, kLoop, kBreakable, kContinuable:
 		n.kids = []*node{b.gen(depth - 1)}
 		n.hasCond = kind == kWhile
 	case kFor:
@@ -101,10 +103,21 @@ func canContinue(n *node) bool {
 	switch n.kind {
 	case kContinue:
 		return true
-	case kBind, kBindRecv, kDelay:
+	case kBind, kBindRecv, kDelay, kBreakable:
 		return canContinue(n.kids[0])
 	case kCombine:
 		return canContinue(n.kids[0]) || canContinue(n.kids[1])
+	}
+	return false // kContinuable absorbs it
+}
+
+// yieldsFirst: every run of the term yields before it signals anything.
+func yieldsFirst(n *node) bool {
+	switch n.kind {
+	case kBind, kBindRecv:
+		return true
+	case kDelay, kBreakable, kContinuable, kCombine:
+		return yieldsFirst(n.kids[0])
 	}
 	return false
 }
@@ -118,6 +131,9 @@ func leavesOrYields(n *node) bool {
 		return leavesOrYields(n.kids[0])
 	case kCombine:
 		return leavesOrYields(n.kids[0]) || (!canContinue(n.kids[0]) && leavesOrYields(n.kids[1]))
+	case kBreakable, kContinuable:
+		// a break / continue raised inside is absorbed: only a yield counts (conservative)
+		return yieldsFirst(n.kids[0])
 	}
 	return false
 }
@@ -195,6 +211,10 @@ func compile(n *node, e *env) seq.Seq[int] {
 		return seq.While(func() bool { rt.Emit(tagCond, n.id); return e.nextCond() }, compile(n.kids[0], e))
 	case kLoop:
 		return seq.Loop(compile(n.kids[0], e))
+	case kBreakable:
+		return seq.Breakable(compile(n.kids[0], e))
+	case kContinuable:
+		return seq.Continuable(compile(n.kids[0], e))
 	}
 	panic("bad kind")
 }
@@ -264,6 +284,13 @@ func (r *ref) exec(n *node) (int, int) {
 			return s, v
 		}
 		return r.exec(n.kids[1])
+	case kBreakable, kContinuable:
+		// a statement that owns break (switch) / a loop body in front of a yielding post
+		s, v := r.exec(n.kids[0])
+		if (n.kind == kBreakable && s == sBreak) || (n.kind == kContinuable && s == sContinue) {
+			return sNormal, 0
+		}
+		return s, v
 	case kFor, kWhile, kLoop:
 		first := true
 		for {
